@@ -96,7 +96,7 @@ Case(L, op, d, seen) ==
              accept |-> ImplAccept(L, op, d), propaccept |-> PropAccept(L, op, d),
              path |-> IF PropAccept(L, op, d) THEN Path(L, op, d) ELSE <<>>,
              via |-> Deliverer(L, op)]
-Next == \E L \in 0..MaxLen, op \in Ops, d \in 0..MaxLen, seen \in BOOLEAN : Case(L, op, d, seen)
+Next == phase = "start" /\ \E L \in 0..MaxLen, op \in Ops, d \in 0..MaxLen, seen \in BOOLEAN : Case(L, op, d, seen)
 Spec == Init /\ [][Next]_vars
 
 Agree == act.name = "case" => (act.accept <=> act.propaccept)
